@@ -86,13 +86,27 @@ def assigned_names(body):
     return names, mutated
 
 
+class Snapshot:
+    """Values of the locals and ghost counters at loop entry (s.at_entry.<name>)."""
+
+    def __init__(self, values):
+        object.__setattr__(self, "_values", values)
+
+    def __getattr__(self, name):
+        try:
+            return self._values[name]
+        except KeyError:
+            raise AttributeError(name)
+
+
 class LoopState:
     """Read access to the locals of the frame (and ghost counters) for invariant / variant lambdas."""
 
-    def __init__(self, I, env, extra=None):
+    def __init__(self, I, env, extra=None, entry=None):
         object.__setattr__(self, "_I", I)
         object.__setattr__(self, "_env", env)
         object.__setattr__(self, "_extra", extra or {})
+        object.__setattr__(self, "at_entry", entry)
 
     def __getattr__(self, name):
         if name in self._extra:
@@ -131,7 +145,7 @@ def havoc_like(I, v, name):
 
 def exec_while(I, node, env):
     fname, k = _loop_key(I, node)
-    ann = I.registry.loop_annotation(fname, k)
+    ann = I.local_loops.get((fname, k)) or I.registry.loop_annotation(fname, k)
     if node.orelse:
         raise OutOfReach("while/else")
     if ann is None:
@@ -178,7 +192,7 @@ def exec_for(I, node, env):
     from .interp import EnumerateVal, RangeVal
 
     fname, k = _loop_key(I, node)
-    ann = I.registry.loop_annotation(fname, k)
+    ann = I.local_loops.get((fname, k)) or I.registry.loop_annotation(fname, k)
     if node.orelse:
         raise OutOfReach("for/else")
     it = I.eval(node.iter, env)
@@ -225,7 +239,7 @@ def _annotated(I, node, env, ann, fname, k, kind, iterable=None):
     from .interp import EnumerateVal, RangeVal
 
     ctx = I.ctx
-    tag = f"{fname}/loop{k}"
+    tag = f"{I.name_of(I.frames[-1].fi)}/loop{k}"
     names, mutated = assigned_names(node.body if kind == "while" else node.body + [ast.Assign(targets=[node.target], value=ast.Constant(0), lineno=0, col_offset=0)])
     hidden = {}
     idx_name = "_i"
@@ -269,7 +283,15 @@ def _annotated(I, node, env, ann, fname, k, kind, iterable=None):
             getter = lambda i: (R._add(i, enum_start), base_getter(i))  # noqa: E731
         hidden[idx_name] = lo
     # --- init
-    st = LoopState(I, env, hidden)
+    snap = {}
+    e_ = env
+    while e_ is not None:
+        for k_, v_ in e_.vars.items():
+            snap.setdefault(k_, v_)
+        e_ = e_.parent
+    snap.update(ctx.ghost)
+    entry = Snapshot(snap)
+    st = LoopState(I, env, hidden, entry)
     if ann.get("invariant") is not None:
         inv0 = ann["invariant"](st)
         ctx.prove(f"{tag}.init", _conj(I, inv0))
@@ -278,7 +300,7 @@ def _annotated(I, node, env, ann, fname, k, kind, iterable=None):
         i = fresh_int("idx")
         ctx.assume(z3.And(i >= Z(lo), i <= z3.If(Z(hi) >= Z(lo), Z(hi), Z(lo))))
         hidden[idx_name] = i
-    st = LoopState(I, env, hidden)
+    st = LoopState(I, env, hidden, entry)
     frame_vars = set(names) | set(mutated) | set(ann.get("modifies", ()))
     for n in sorted(frame_vars):
         found, cur = env.lookup(n)
@@ -302,7 +324,7 @@ def _annotated(I, node, env, ann, fname, k, kind, iterable=None):
             fg = fresh_int("ghost_" + g)
             ctx.assume(fg >= Z(ctx.ghost[g]))
             ctx.ghost[g] = fg
-    st = LoopState(I, env, hidden)
+    st = LoopState(I, env, hidden, entry)
     if ann.get("invariant") is not None:
         ctx.assume(_conj(I, ann["invariant"](st)))
     # --- exit or one more iteration
@@ -330,7 +352,7 @@ def _annotated(I, node, env, ann, fname, k, kind, iterable=None):
         pass
     if kind == "for":
         hidden[idx_name] = simp(Z(hidden[idx_name]) + 1)
-    st = LoopState(I, env, hidden)
+    st = LoopState(I, env, hidden, entry)
     if ann.get("invariant") is not None:
         ctx.prove(f"{tag}.preserved", _conj(I, ann["invariant"](st)))
     if v0 is not None:
